@@ -246,6 +246,68 @@ pub fn campaigns(ctx: &Ctx) -> Stats {
             Some(SeqCase { calls })
         }));
     }
+    // operands of very different magnitudes (against each other, and element by element), full mantissas;
+    // inner lengths on both sides of typical unrolling factors
+    {
+        let dims: Vec<(usize, usize, usize)> = vec![(2, 8, 2), (3, 9, 2), (2, 17, 3), (1, 5, 4), (4, 3, 1), (2, 2, 2), (3, 16, 3), (2, 33, 2)];
+        let nd = dims.len() as u64;
+        let (_, mul, jit) = wide_exps();
+        st.merge(ctx.run_indexed("wide-magnitudes", nd * 4 * 3 * t.pick(400, 6000), None, |i| {
+            let (r, k, c) = dims[(i % nd) as usize];
+            let (ta, tb) = ((i / nd) % 2 == 1, (i / nd / 2) % 2 == 1);
+            let lead: Vec<usize> = [vec![], vec![2], vec![2, 1]][((i / nd / 4) % 3) as usize].clone();
+            let z = mix(i ^ 0xC05 ^ ctx.seed.wrapping_mul(0x9E3779B1));
+            let mut a = lead.clone();
+            a.extend(if ta { [k, r] } else { [r, k] });
+            let b: Vec<usize> = if tb { vec![c, k] } else { vec![k, c] };
+            let cd = match (z >> 40) % 4 {
+                0 => None,
+                1 => Some(vec![c]),
+                2 => Some(vec![r, c]),
+                _ => Some(vec![1]),
+            };
+            let cfg = MatmulCfg { a, b, ta, tb, c: cd };
+            let mut f = fwd(&cfg);
+            // opposite or equal base exponents: the products stay near 2^(ba+bb)
+            let ba = pick_base(z as u8, mul);
+            let bb = match (z >> 8) % 3 {
+                0 => -ba,
+                1 => ba / 2,
+                _ => pick_base((z >> 16) as u8, mul),
+            };
+            let (ja, jb) = (if (z >> 24) & 1 == 0 { 0 } else { jit }, if (z >> 25) & 1 == 0 { 0 } else { jit });
+            f.leaves[0].vals = wide_vals(z, f.leaves[0].vals.len(), ba, ja, true);
+            f.leaves[1].vals = wide_vals(z ^ 5, f.leaves[1].vals.len(), bb, jb, true);
+            f.leaves[0].tracked = (z >> 26) & 1 == 1;
+            if let Some(cl) = f.leaves.get_mut(2) {
+                cl.vals = wide_vals(z ^ 6, cl.vals.len(), pick_base((z >> 32) as u8, mul), if (z >> 27) & 1 == 0 { 0 } else { jit }, true);
+            }
+            Some(f)
+        }));
+    }
+    // results and operands with more than 2^16 elements (index arithmetic in narrow integer types)
+    {
+        let big: Vec<(Vec<usize>, Vec<usize>, bool, bool, Option<Vec<usize>>)> = vec![
+            (vec![300, 2], vec![2, 300], false, false, None),
+            (vec![2, 300], vec![300, 2], true, true, Some(vec![300])),
+            (vec![70001], vec![70001], false, false, None),
+            (vec![2, 40000], vec![40000, 2], false, false, Some(vec![2])),
+            (vec![40000, 2], vec![2, 40000], true, true, None),
+            (vec![3, 40000], vec![2, 40000], false, true, None),
+            (vec![70000, 1], vec![1, 2], false, false, Some(vec![1, 2])),
+            (vec![260, 1, 2], vec![2, 260], false, false, None),
+            (vec![33000, 2, 1], vec![1, 2], false, false, None),
+            (vec![2, 3], vec![33000, 3, 1], false, false, None),
+        ];
+        st.merge(ctx.run_indexed("more-than-65536-elements", big.len() as u64, None, |i| {
+            let (a, b, ta, tb, c) = big[i as usize].clone();
+            let cfg = MatmulCfg { a, b, ta, tb, c };
+            let mut f = fwd(&cfg);
+            f.leaves[0].vals = (0..f.leaves[0].vals.len()).map(|k| ((k % 251) as f64) - 125.0).collect();
+            f.leaves[1].vals = (0..f.leaves[1].vals.len()).map(|k| ((k % 127) as f64) - 60.0).collect();
+            Some(f)
+        }));
+    }
     let total = t.pick(20000u64, 400000);
     let mxs = t.pick(7usize, 10);
     let strat = move || (1..=mxs, 1..=mxs, 1..=mxs, 2..=4usize, 2..=4usize, any::<usize>(), any::<u64>()).prop_map(|(r, k, c, m, n, sel, vseed)| MmRecipe { r, k, c, m, n, sel, vseed }).boxed();
